@@ -345,11 +345,12 @@ def r_strict(ctx, view):
             operands_ok = is_offered(a, f) and is_stored(b)
             # push sites: push(self, item, priority) whose result is returned
             push_bbs = []
+            RET = return_locals(f)
             for bb2, _ in f.calls():
                 c2 = fx.call_info(f, bb2)
                 if c2.local_callee == Q + "::push":
                     pa = fx.args_vp(c2)
-                    if is_param(pa[1], 2) and is_param(pa[2], 3) and f.term(bb2)["dest"]["local"] == 0:
+                    if is_param(pa[1], 2) and is_param(pa[2], 3) and f.term(bb2)["dest"]["local"] in RET and not f.term(bb2)["dest"]["proj"]:
                         push_bbs.append(bb2)
 
             def leads_to_push(tb):
@@ -375,7 +376,7 @@ def r_strict(ctx, view):
                 rv = None
                 for bb2 in sorted(region):
                     for s in f.blocks[bb2]["stmts"]:
-                        if s["k"] == "assign" and s["place"]["local"] == 0 and not s["place"]["proj"]:
+                        if s["k"] == "assign" and s["place"]["local"] in RET and not s["place"]["proj"] and not s.get("inlined_return"):
                             rv = vp.rvalue(f, s["rv"])
                 return (not eff) and rv is not None and rv[0] == "adt" and rv[2] == "Some" and is_param(rv[3][0], 3)
 
@@ -431,8 +432,33 @@ def r_strict(ctx, view):
                 dval = None
                 if default is not None and default["k"] == "const":
                     dval = {"const true": True, "true": True, "const false": False, "false": False}.get(default.get("s"))
-                tT = None if dval is True else True
-                tF = None if dval is False else False
+                # polarity of the closure's result with respect to the comparison made inside it
+                cterm = vp.call_term(g, cbb, g.term(cbb))
+
+                def pol(x, same=True):
+                    x = strip(x)
+                    if x[0] == "call" and x[:3] == cterm[:3] and x[3] == cterm[3]:
+                        return same
+                    if x[0] == "unop" and x[1] == "Not":
+                        return pol(x[2], not same)
+                    if x[0] == "binop" and x[1] in ("Eq", "Ne"):
+                        for u, w in ((x[2], x[3]), (x[3], x[2])):
+                            w = strip(w)
+                            while w[0] in ("ref", "deref"):
+                                w = strip(w[1])
+                            if w[0] == "const":
+                                cv = w[1].replace("const ", "")
+                                if cv in ("true", "false"):
+                                    keep = (cv == "true") == (x[1] == "Eq")
+                                    return pol(u, same if keep else not same)
+                    return None
+                cp = pol(vp.local(g, 0))
+                if cp is None:
+                    ctx.ob("R-STRICT", key + ":branches", False, g.loc(ci.span),
+                           "the closure's result is not the comparison or its negation: %s" % term_str(vp.local(g, 0))[:80])
+                    continue
+                tT = None if dval is True else cp
+                tF = None if dval is False else (not cp)
             eff_op = None
             if leads_to_push(T) and refuses(F) and tF is not None:
                 eff_op = op if tF is False else NEG[op]
@@ -450,6 +476,25 @@ def r_strict(ctx, view):
             # the absent item is pushed: on every feasible path on which the lookup answered None, push is reached
             absent_ok, absent_why = absent_reaches_push(view, f, push_bbs)
             ctx.ob("R-STRICT", key + ":absent-item-is-pushed", absent_ok, f.loc(), absent_why)
+
+
+def return_locals(f):
+    """the return place and the locals whose value is (only) moved into it: `_0`, and `_n` with `_0 = move _n`
+    (the result slot of an inlined helper)"""
+    out = {0}
+    changed = True
+    while changed:
+        changed = False
+        for b in f.blocks:
+            if b["cleanup"]:
+                continue
+            for s in b["stmts"]:
+                if s["k"] == "assign" and s["place"]["local"] in out and not s["place"]["proj"] and s["rv"]["k"] == "use":
+                    o = s["rv"]["op"]
+                    if o["k"] in ("move", "copy") and not o["place"]["proj"] and o["place"]["local"] not in out:
+                        out.add(o["place"]["local"])
+                        changed = True
+    return out
 
 
 def absent_reaches_push(view, f, push_bbs):
@@ -981,10 +1026,28 @@ def r_readers(ctx, view):
                             ("<&store::Store as IntoIterator>::into_iter", "Iter", "iter")):
         f = prog.fn(key)
         ctx.anchor(key, f is not None)
-        r = ret_term(view, f)
-        ok = r[0] == "adt" and r[1].endswith(ctor) and len(r[3]) == 1 and strip(r[3][0])[0] == "call" and strip(r[3][0])[1].split("::")[-1] == call and \
-            component(strip(r[3][0])[2][0]) and component(strip(r[3][0])[2][0])[0] == "map"
-        ob(short(key), ok, f, "wraps %s() of the map (%s)" % (call, term_str(r)[:50]))
+        from .core import deep_ret as _deep_ret
+        r = strip(_deep_ret(view, f))
+        views = {"iter": ("iter", "as_slice"), "into_iter": ("into_iter",)}[call]
+        ok = r[0] == "adt" and r[1].endswith(ctor)
+        nviews = 0
+        if ok:
+            # every field of the iterator is the whole-map view, the number 0, or the length of that view
+            def fine(x):
+                x = strip(x)
+                while x[0] in ("ref", "deref"):
+                    x = strip(x[1])
+                if x[0] == "const":
+                    return const_int(x) == 0
+                if x[0] == "call" and x[1].split("::")[-1] in views and len(x[2]) == 1 and component(x[2][0]) and component(x[2][0])[0] == "map":
+                    return "view"
+                if x[0] == "call" and x[1].split("::")[-1] == "len" and len(x[2]) == 1:
+                    return bool(fine(x[2][0]) == "view" or (component(x[2][0]) and component(x[2][0])[0] == "map"))
+                return False
+            got = [fine(x) for x in r[3]]
+            nviews = sum(1 for g in got if g == "view")
+            ok = all(got) and nviews == 1
+        ob(short(key), ok, f, "wraps the whole-map view %s of the map (%s)" % ("/".join(views), term_str(r)[:50]))
     f = prog.fn("store::Store::into_vec")
     ctx.anchor("Store::into_vec", f is not None)
     r = ret_term(view, f)
@@ -1172,3 +1235,89 @@ def r_returns(ctx, view):
                     continue
             bad.append(term_str(a)[:60])
         ob("%s::push" % QNAME[Q], not bad and some >= 1, q, "returns None or Some(the priority replaced in the entry) (%s)" % (bad or "ok"))
+
+
+# ------------------------------------------------------------------------------------------
+# R-CONSUME: bulk insertion reads its whole source on every path
+# ------------------------------------------------------------------------------------------
+CONSUME_FNS = [
+    "<store::Store as Extend<(..)>>::extend", "<store::Store as FromIterator<(..)>>::from_iter", "<store::Store as From<Vec>>::from",
+    "<priority_queue::PriorityQueue as Extend<(..)>>::extend", "<double_priority_queue::DoublePriorityQueue as Extend<(..)>>::extend",
+    "<priority_queue::PriorityQueue as FromIterator<(..)>>::from_iter", "<double_priority_queue::DoublePriorityQueue as FromIterator<(..)>>::from_iter",
+    "<priority_queue::PriorityQueue as From<Vec>>::from", "<double_priority_queue::DoublePriorityQueue as From<Vec>>::from",
+]
+
+
+def r_consume(ctx, view):
+    """R-CONSUME.  In Extend::extend, FromIterator::from_iter and From<Vec>::from the source (parameter, or the iterator made
+    from it) is consumed on EVERY normal path to the return: each path passes a block that hands the source by value to a
+    crate function that consumes it (Store::extend / from_iter / from) or that drives `Iterator::next` on it in a loop
+    whose only exit is the `None` answer.  An early return that depends on anything else (a size hint, the current length)
+    silently drops elements the iterator would have yielded."""
+    prog = view.prog
+    vp = view.vp
+    fx = view.fx
+    ctx.cur = view
+    n = 0
+    for key in CONSUME_FNS:
+        f = prog.fn(key)
+        ctx.anchor(key, f is not None)
+        src = f.arg_count   # the source is the last parameter (self, iter) / (iter) / (vec)
+        consumers = set()
+        why = []
+
+        def from_source(t):
+            for x in walk(t):
+                if x[0] == "param" and x[2] == src:
+                    return True
+            return False
+
+        for bb, t in f.calls():
+            ci = fx.call_info(f, bb)
+            args = fx.args_vp(ci)
+            if not any(from_source(a) for a in args):
+                continue
+            nm = ci.name
+            if ci.local_callee and any(ci.local_callee.endswith(s) for s in ("::extend", "::from_iter", "::from")) and ci.local_callee in CONSUME_FNS:
+                consumers.add(bb)
+                why.append("%s (line %d)" % (short(ci.local_callee), t["span"]["line"]))
+            elif nm == "next" and "Iterator" in ci.key:
+                # a `for` loop: the loop is left only through the None arm of this very call
+                lp = [l for l in f.cfg.loops if bb in l["body"]]
+                if lp:
+                    consumers.add(bb)
+                    why.append("loop over next() (line %d)" % t["span"]["line"])
+            elif nm in ("for_each", "fold", "collect", "count", "last") and "Iterator" in ci.key:
+                consumers.add(bb)
+                why.append("%s (line %d)" % (nm, t["span"]["line"]))
+        n += 1
+        if not consumers:
+            ctx.ob("R-CONSUME", short(key), False, f.loc(), "no call consumes the source parameter")
+            continue
+        esc = None if 0 in consumers else f.cfg.escape_path(0, consumers, start_after=False)
+        ctx.ob("R-CONSUME", short(key), esc is None, f.loc(),
+               ("every normal path to the return consumes the source: %s" % "; ".join(sorted(set(why)))) if esc is None else
+               "a normal path returns without reading the source: %s" % " -> ".join("bb%d@L%d" % (b, f.term(b)["span"]["line"]) for b in esc[:12]))
+        # the loops that drive next() end only when it answers None
+        for bb in sorted(consumers):
+            t = f.term(bb)
+            if t["func"]["name"] != "next":
+                continue
+            lp = [l for l in f.cfg.loops if bb in l["body"]]
+            body = set().union(*[l["body"] for l in lp]) if lp else set()
+            exits = [(a, b) for a in body for b in f.cfg.succ[a] if b not in body]
+            okx = True
+            bad = None
+            from .core import edge_presence
+            for (a, b) in exits:
+                ta = f.term(a)
+                if ta["k"] == "switch":
+                    d = strip(vp.operand(f, ta["discr"]))
+                    if d[0] == "discr" and edge_presence(d, ta, b) == "absent" and any(x[0] == "call" and x[1].endswith("::next") for x in walk(d)):
+                        continue
+                okx = False
+                bad = (a, b)
+            n += 1
+            ctx.ob("R-CONSUME", "%s:loop-exit@next" % short(key), okx, f.loc(t["span"]),
+                   "the loop ends only when next() answers None" if okx else "the loop can be left at bb%d -> bb%d (line %d) before the source is exhausted" % (bad[0], bad[1], f.term(bad[0])["span"]["line"]))
+    ctx.floor("R-CONSUME", n, 9)
